@@ -1,1 +1,17 @@
 import Bcder.Props.C18
+#print axioms Bcder.Props.C18.chars_eq_spec
+#print axioms Bcder.Props.C18.check_eq_spec
+#print axioms Bcder.Props.C18.fromStr_eq_spec
+#print axioms Bcder.Props.C18.fromStr_utf8
+#print axioms Bcder.Props.C18.fromStr_wellformed
+#print axioms Bcder.Props.C18.utf8_decode_iff
+#print axioms Bcder.Props.C18.numeric_decode_iff
+#print axioms Bcder.Props.C18.printable_decode_iff
+#print axioms Bcder.Props.C18.ia5_decode_iff
+#print axioms Bcder.Props.C18.chars_scalar
+#print axioms Bcder.Props.C18.new_eq_spec
+#print axioms Bcder.Props.C18.new_octets_err
+#print axioms Bcder.Props.C18.rs_chars_eq_spec
+#print axioms Bcder.Props.C18.chars_of_new
+#print axioms Bcder.Props.C18.segmentation_irrelevant
+#print axioms Bcder.Props.C18.fromContent_eq
